@@ -92,6 +92,7 @@ func (re *Regexp) run(quick bool, textstart, previousMatchLength int, input []ru
 	}
 	if quick && textInfo == nil && re.quickCode != nil {
 		runner.code = re.quickCode
+		verifPoint(verifPtQuickCode)
 	}
 
 	return runner.scan(input, textInfo, textstart, previousMatchLength, quick, re.MatchTimeout)
@@ -1081,6 +1082,7 @@ func (r *Runner) growTrack() bool {
 	copy(newTrack[newLen-oldLen:], r.runtrack)
 	r.Runtrackpos += newLen - oldLen
 	r.runtrack = newTrack
+	verifTrackAlloc(r, newLen)
 	return true
 }
 
@@ -1972,6 +1974,7 @@ func (r *Runner) initMatch(textInfo *matchText) {
 	}
 
 	r.runtrack = make([]int, tracksize)
+	verifTrackAlloc(r, tracksize)
 	r.Runtrackpos = tracksize
 
 	r.runstack = make([]int, stacksize)
@@ -2205,6 +2208,7 @@ func (r *Runner) decodeStringWithStart(s string, startAt int) (runes []rune, run
 
 // getRunner returns a runner to use for matching re.
 func (re *Regexp) getRunner() *Runner {
+	verifPoint(verifPtGetRunner)
 	if re.runnerPool == nil {
 		re.initCaches()
 	}
@@ -2213,6 +2217,7 @@ func (re *Regexp) getRunner() *Runner {
 
 // putRunner returns a runner to the re's pool cache.
 func (re *Regexp) putRunner(r *Runner) {
+	verifPoint(verifPtPutRunner)
 	r.Runtext = nil
 	r.code = re.code
 	if r.runmatch != nil {
